@@ -165,7 +165,7 @@ def main(argv=None):
     failing.sort(key=lambda o: (0 if o["status"] == "REFUTED" else 1, o.pop("_nth_of_unit")))
     import re as _re
     from concurrent.futures import ThreadPoolExecutor
-    REPLAY_CAP = int(os.environ.get("PYVC_REPLAY_CAP", "24"))
+    REPLAY_CAP = int(os.environ.get("PYVC_REPLAY_CAP", "48"))
     jobs = []
     not_replayed = []
     for k, o in enumerate(failing):
@@ -180,14 +180,30 @@ def main(argv=None):
         with open(os.path.join(VERIF, rpath), "w") as f:
             json.dump(rec, f, indent=1, default=str)
         can = bool(ur.get("qualname") or o.get("replayable"))
-        jobs.append((o, rpath, rec, can and k < REPLAY_CAP, can))
+        # obligations of the same unit case that carry no counter-model are replayed by ONE run (the replay of a unit case evaluates
+        # every clause of its contract on the real code): only distinct replays count against the cap
+        rkey = (o.get("unit"), json.dumps(rec["model"], sort_keys=True, default=str) if rec["model"] else None) if ur.get("qualname") else ("#", k)
+        jobs.append((o, rpath, rec, can, rkey))
+    distinct = []
+    for j in jobs:
+        if j[3] and j[4] not in distinct:
+            distinct.append(j[4])
+    run_keys = set(distinct[:REPLAY_CAP])
     with ThreadPoolExecutor(max_workers=min(12, max(1, len(jobs)))) as ex:
-        futs = [(j, ex.submit(run_replay, os.path.join(VERIF, j[1])) if j[3] else None) for j in jobs]
-        for (o, rpath, rec, do, can), fut in futs:
+        started = {}
+        futs = []
+        for j in jobs:
+            if j[3] and j[4] in run_keys:
+                if j[4] not in started:
+                    started[j[4]] = ex.submit(run_replay, os.path.join(VERIF, j[1]))
+                futs.append((j, started[j[4]]))
+            else:
+                futs.append((j, None))
+        for (o, rpath, rec, can, rkey), fut in futs:
             if fut is not None:
                 rr = fut.result()
             elif can:
-                rr = {"ran": False, "error": f"replay not run: more than {REPLAY_CAP} failing obligations in this run (set PYVC_REPLAY_CAP)"}
+                rr = {"ran": False, "error": f"replay not run: more than {REPLAY_CAP} distinct replays in this run (set PYVC_REPLAY_CAP)"}
             else:
                 rr = {"ran": False, "error": "no replay harness"}
             rec["replay_result"] = rr
